@@ -31,6 +31,58 @@ def barrier_set(tier):
     return out
 
 
+# every operator of the DSL as the DEFERRED (step-starting) operator of branch 0: (label, initial value, step-0 tail, `~`-operator with
+# operands, step-1 tail); every callback / operand / tail logs `0.<step>.…`, iterator adaptors are consumed inside their own step
+OPSTEP = [
+    ("map", "Some(1)", '-> |o: Option<i32>| { ev("0.0.f", &o); o }', '~|> |v: i32| { ev("0.1.f", &v); v + 1 }', ""),
+    ("and_then", "Some(1)", '-> |o: Option<i32>| { ev("0.0.f", &o); o }', '~=> |v: i32| { ev("0.1.f", &v); Some(v + 1) }', ""),
+    ("filter", "Some(1)", '-> |o: Option<i32>| { ev("0.0.f", &o); o }', '~?> |v: &i32| { ev("0.1.f", v); true }', ""),
+    ("dot", "Some(1)", '-> |o: Option<i32>| { ev("0.0.f", &o); o }', '~..map(|v: i32| { ev("0.1.f", &v); v + 1 })', ""),
+    ("dot2", "Some(1)", '-> |o: Option<i32>| { ev("0.0.f", &o); o }', '~>.map(|v: i32| { ev("0.1.f", &v); v + 1 })', ""),
+    ("arrow", "Some(1)", '-> |o: Option<i32>| { ev("0.0.f", &o); o }', '~-> |o: Option<i32>| { ev("0.1.f", &o); o }', ""),
+    ("or", "None::<i32>", '-> |o: Option<i32>| { ev("0.0.f", &o); o }', '~<| lg("0.1.o", Some(5))', ""),
+    ("or_else", "Err::<i32, i32>(1)", '-> |o: Result<i32, i32>| { ev("0.0.f", &o); o }', '~<= |e: i32| { ev("0.1.f", &e); Ok::<i32, i32>(e) }', ""),
+    ("map_err", "Err::<i32, i32>(1)", '-> |o: Result<i32, i32>| { ev("0.0.f", &o); o }', '~!> |e: i32| { ev("0.1.f", &e); e + 1 }', ""),
+    ("collect", "vec![1, 2].into_iter()", '-> |it: std::vec::IntoIter<i32>| { ev0("0.0.f"); it }', "~=>[] Vec<i32>", '-> |v: Vec<i32>| { ev("0.1.f", &v); v }'),
+    ("collect0", "vec![1, 2].into_iter()", '-> |it: std::vec::IntoIter<i32>| { ev0("0.0.f"); it }', "~=>[]", '-> |v: Vec<i32>| { ev("0.1.f", &v); v }'),
+    ("chain", "vec![1, 2].into_iter()", '-> |it: std::vec::IntoIter<i32>| { ev0("0.0.f"); it }', '~>@> lg("0.1.o", vec![3].into_iter())', "=>[] Vec<i32>"),
+    ("find_map", "vec![1, 2].into_iter()", '-> |it: std::vec::IntoIter<i32>| { ev0("0.0.f"); it }', '~?|>@ |v: i32| { ev("0.1.f", &v); Some(v) }', ""),
+    ("filter_map", "vec![1, 2].into_iter()", '-> |it: std::vec::IntoIter<i32>| { ev0("0.0.f"); it }', '~?|> |v: i32| { ev("0.1.f", &v); Some(v) }', "=>[] Vec<i32>"),
+    ("enumerate", "vec![1, 2].into_iter()", '-> |it: std::vec::IntoIter<i32>| { ev0("0.0.f"); it }', "~|n>", '=>[] Vec<(usize, i32)> -> |v: Vec<(usize, i32)>| { ev("0.1.f", &v); v }'),
+    ("partition", "vec![1, 2].into_iter()", '-> |it: std::vec::IntoIter<i32>| { ev0("0.0.f"); it }', '~?&!> |v: &i32| { ev("0.1.f", v); *v > 1 }', "-> |p: (Vec<i32>, Vec<i32>)| p"),
+    ("flatten", "Some(Some(1))", '-> |o: Option<Option<i32>>| { ev("0.0.f", &o); o }', "~^^>", '|> |v: i32| { ev("0.1.f", &v); v + 1 }'),
+    ("fold", "vec![1, 2].into_iter()", '-> |it: std::vec::IntoIter<i32>| { ev0("0.0.f"); it }', '~^@ 0, |a: i32, v: i32| { ev("0.1.f", &v); a + v }', ""),
+    ("try_fold", "vec![1, 2].into_iter()", '-> |it: std::vec::IntoIter<i32>| { ev0("0.0.f"); it }', '~?^@ 0, |a: i32, v: i32| { ev("0.1.f", &v); Some(a + v) }', ""),
+    ("find", "vec![1, 2].into_iter()", '-> |it: std::vec::IntoIter<i32>| { ev0("0.0.f"); it }', '~?@ |v: &i32| { ev("0.1.f", v); *v > 1 }', ""),
+    ("zip", "vec![1, 2].into_iter()", '-> |it: std::vec::IntoIter<i32>| { ev0("0.0.f"); it }', '~>^> lg("0.1.o", vec![5, 6].into_iter())', "=>[] Vec<(i32, i32)>"),
+    ("unzip", "vec![(1, 2), (3, 4)].into_iter()", '-> |it: std::vec::IntoIter<(i32, i32)>| { ev0("0.0.f"); it }', "~<-> i32, i32, Vec<i32>, Vec<i32>", '-> |p: (Vec<i32>, Vec<i32>)| { ev("0.1.f", &p); p }'),
+    ("unzip0", "vec![(1, 2), (3, 4)].into_iter()", '-> |it: std::vec::IntoIter<(i32, i32)>| { ev0("0.0.f"); it }', "~<->", '-> |p: (Vec<i32>, Vec<i32>)| { ev("0.1.f", &p); p }'),
+    ("inspect", "Some(1)", '-> |o: Option<i32>| { ev("0.0.f", &o); o }', '~?? |o: &Option<i32>| { ev("0.1.f", o); }', ""),
+    ("wrap_map", "Some(Some(1))", '-> |o: Option<Option<i32>>| { ev("0.0.f", &o); o }', '~|> >>> |> |v: i32| { ev("0.1.f", &v); v + 1 }', ""),
+    ("wrap_close", "Some(Some(1))", '-> |o: Option<Option<i32>>| { ev("0.0.f", &o); o }', '~|> >>> |> |v: i32| { ev("0.1.f", &v); v + 1 } <<<', '-> |o: Option<Option<i32>>| { ev("0.1.g", &o); o }'),
+]
+
+
+def opstep_set(tier):
+    """C03: EVERY operator of the DSL (operand-less ones, typed ones and wrapper openers included) as the deferred operator that
+    starts step 1 of branch 0, next to a two-step branch 1; the sequential macro of the same body is the value reference, the
+    barrier itself is judged on every schedule from the step tags of the events"""
+    out = []
+    b1 = 'lg("1.0.i", st(4, 100)) ~-> |v: i32| { ev("1.1.f", &v); v + 1 }'
+    b2 = 'lg("2.0.i", st(8, 200)) ~-> |v: i32| { ev("2.1.f", &v); v + 1 } ~-> |v: i32| { ev("2.2.f", &v); v + 1 }'
+    for label, init, t0, op, t1 in OPSTEP:
+        for mac in ("join_spawn", "spawn"):
+            for n in (2, 3):
+                if n == 3 and (mac == "spawn" or tier == "quick" and label not in ("flatten", "enumerate", "collect0", "unzip0", "wrap_close", "or")):
+                    continue
+                body = "lg(\"0.0.i\", %s) %s %s %s, %s" % (init, t0, op, t1, b1 if n == 2 else b1 + ", " + b2)
+                fmt = 'ev0("end.99.z"); format!("{:?}", x)'
+                rb = "let x = join! { %s };\n%s" % (body, fmt)
+                mb = "let x = %s! { %s };\n%s" % (mac, body, fmt)
+                out.append(TProg("opstep/%s/%s/%d" % (mac, label, n), rb, mb, depths=(2, 2) if n == 2 else (2, 2, 3), maxd=fp.MAXD, meta={"macro": mac, "dsl": "%s! { %s }" % (mac, body), "ref": "join! { %s }" % body}))
+    return out
+
+
 NESTED2 = """{mac}! {{
     lg("0.0.i", 1) ~-> |v: i32| {{ ev("0.1.f", &v); v + 1 }},
     lg("1.0.i", 2) -> |v: i32| {{
@@ -148,4 +200,4 @@ def tryfail_set(tier):
 
 
 def all_sets(tier):
-    return {"c03": barrier_set(tier), "c08": threads_set(tier), "c18": panic_set(tier), "c05": tryfail_set(tier)}
+    return {"c03": barrier_set(tier) + opstep_set(tier), "c08": threads_set(tier), "c18": panic_set(tier), "c05": tryfail_set(tier)}
